@@ -627,3 +627,25 @@ package graphql
 //@   loop 3 ordered
 //@   loop 5 ordered
 //@   loop 5 invariant sortedflag(fieldNames)
+
+// ---- introspection resolvers never write the schema they describe (C10, C07) and list in a defined order (C12) ----
+
+//@ func Enum.Values
+//@   trusted
+//@   functional
+//@   assigns nothing
+
+//@ func after:introspection.go:TypeType.AddFieldConfig("enumValues"
+//@   props C10 C07
+//@   nosafety
+//@   assigns nothing
+//@   ensures result1 == nil
+//@   loop 1 invariant fresh(values)
+
+//@ func after:introspection.go:TypeType.AddFieldConfig("inputFields"
+//@   props C10 C07 C12
+//@   nosafety
+//@   assigns nothing
+//@   ensures result1 == nil
+//@   loop 1 invariant fresh(fields)
+//@   loop[C12] 1 ordered
